@@ -165,6 +165,9 @@ DIRECTED = [
     # refused requests change nothing
     [("define", [(1, [10])]), ("define", [(2, [20]), (1, [20])]), ("define", [(2, [99])]), ("define", [(2, [10]), ("r", [99])]), ("link", [(1, [1]), (7, [1])]), ("link", [(1, [1, 9])]),
      ("link", [(1, [1])]), ("link", [(2, [1]), (1, [1])]), ("enable", True, [1, 7]), ("enable", True, [7, 1]), ("request", 1)],
+    # a second report is linked to an event that is already linked and enabled: it stays enabled and reports both
+    [("define", [(1, [10]), (2, [20])]), ("link", [(1, [1])]), ("enable", True, [1]), ("link", [(1, [2])]), ("request", 1), ("trigger", 1), ("enable", False, [1]), ("link", [("ce", [1])]),
+     ("enable", True, ["ce"]), ("link", [("ce", [2])]), ("trigger", "ce"), ("request", "ce")],
     # delete and define the same id in one request; define twice in one request
     [("define", [(1, [10])]), ("define", [(1, []), (1, [20])]), ("define", [(2, [10]), (2, [20])]), ("link", [("ce", [2])]), ("enable", True, ["ce"]), ("request", "ce"), ("trigger", "ce")],
     # a report linked to several events is deleted: every event loses it
